@@ -74,6 +74,30 @@ def reqStr : Req → String
   | Req.get none => "get"
   | Req.get (some p) => s!"get:{p}"
 
+def resStr : Except Err Status → String
+  | Except.ok st => statusStr st
+  | Except.error Err.valueError => "error:ValueError"
+  | Except.error Err.connection => "error:ConnectionError"
+  | Except.error Err.zeroDivision => "error:ZeroDivisionError"
+
+def worldJson (w : World) (res : String) : Json :=
+  Json.mkObj [
+    ("result", Json.str res),
+    ("archive", match w.archive with
+      | some b => bytesJson b
+      | none => Json.null),
+    ("installed", Json.bool w.installed),
+    ("extracted", Json.arr (w.extracted.map bytesJson).toArray),
+    ("log", Json.arr (w.log.map (fun r => Json.str (reqStr r))).toArray)]
+
+def parseCall (j : Json) : Call :=
+  let script := match (field? j "script").bind getArr? with
+    | some a => a.toList.map parseStep
+    | none => []
+  { force := getBool j "force", noClean := getBool j "noClean", srv := scripted script }
+
+/-- the state after every invocation of the history (through `runCalls` on each prefix, so that what is printed is what the
+  theorems are about) -/
 def handle (j : Json) : Json :=
   let prior := (field? j "prior").getD Json.null
   let archive : Option Bytes := match (field? prior "archive").bind getArr? with
@@ -81,21 +105,15 @@ def handle (j : Json) : Json :=
     | none => none
   let w : World := { archive := archive, installed := getBool prior "installed", extracted := [], reqs := 0, log := [] }
   let goodB := getBytes j "good"
-  let script := match (field? j "script").bind getArr? with
-    | some a => a.toList.map parseStep
+  let calls : List Call := match (field? j "calls").bind getArr? with
+    | some a => a.toList.map parseCall
     | none => []
-  let (w', res) := install (scripted script) (fun b => b == goodB) (getBool j "force") (getBool j "noClean") w
-  Json.mkObj [
-    ("result", Json.str (match res with
-      | Except.ok st => statusStr st
-      | Except.error Err.valueError => "error:ValueError"
-      | Except.error Err.connection => "error:ConnectionError"
-      | Except.error Err.zeroDivision => "error:ZeroDivisionError")),
-    ("archive", match w'.archive with
-      | some b => bytesJson b
-      | none => Json.null),
-    ("installed", Json.bool w'.installed),
-    ("extracted", Json.arr (w'.extracted.map bytesJson).toArray),
-    ("log", Json.arr (w'.log.map (fun r => Json.str (reqStr r))).toArray)]
+  let good : Bytes → Bool := fun b => b == goodB
+  let outs := (List.range calls.length).map (fun i =>
+    let (wi, rs) := runCalls good (calls.take (i + 1)) w
+    worldJson wi (match rs.getLast? with
+      | some r => resStr r
+      | none => "none"))
+  Json.mkObj [("calls", Json.arr outs.toArray)]
 
 def main : IO Unit := Kapture.Driver.run handle
